@@ -28,6 +28,36 @@ CLAIMS = {
     note="Bounded: MC exhaustive for CAP=3 to 5/7 events; production capacity only on the replayed behaviours. Component level; "
          "the wire path (announced/implied port, family filter, error 202) is bound by the node-level server traces (C05).",
     technique="TLA+ spec + TLC model checking; model-based test generation; TLC trace validation of the real peer store"),
+ "C08": dict(
+    category="model_checking",
+    text="TLC checks the bucket/table mechanism (spec/RoutingTable.tla: slot replacement, update rules, splitting) against the "
+         "statement of C08 (spec/TableProps.tla: shape invariants + offer rules) exhaustively for K=2 / 4-bit ids over every "
+         "interleaving of offers, queries and time; the same statements are then evaluated by TLC on the dump of the REAL "
+         "RoutingTable (K=8, 160 buckets) after every operation of all small-model behaviours and of seeded long behaviours with "
+         "clustered ids (deep splits, evictions), and the mechanism's predicted dump is compared slot by slot (drift).",
+    design_ref="DESIGN.md §5 C08, §3.6",
+    note="Bounded: MC exhaustive to 4 (quick) / 5 (thorough, plus simulation to depth 14) events; the code is bound on the "
+         "replayed behaviours. Trusts TLC, hook H2 wrappers, the harness as transport.",
+    technique="TLA+ spec + TLC model checking; model-based test generation; TLC trace validation of the real routing table"),
+ "C09": dict(
+    category="model_checking",
+    text="The closest-node walk (RoutingTable!Closest) is checked by TLC for all 16 targets in every reachable state of the small "
+         "table model against C09 (distinct, only live, min(8, n) entries, all longer-prefix nodes included, every live node "
+         "enumerated once); on the real table TLC evaluates the same statement on the result of closest_nodes for the id of every "
+         "operation, the local id, its single-bit flips and random targets, against the dumped table at that instant.",
+    design_ref="DESIGN.md §5 C09, §3.6",
+    note="Component level: the handler's filter(family).take(8) composition is mirrored in the trace specification; the wire "
+         "level is bound by the server traces. Bounded as C08.",
+    technique="TLA+ spec + TLC model checking; TLC trace validation of closest_nodes on the real routing table"),
+ "C10": dict(
+    category="model_checking",
+    text="C10 is stated over a per-contact history of events (answered, named by hearsay, queried us, was queried, time) in "
+         "spec/TableProps.tla; TLC checks the status mechanism of spec/RoutingTable.tla against it exhaustively around the "
+         "15-minute boundary, and judges the standing the REAL code reports (dump status, load_contacts, counts) after every "
+         "operation of the replayed behaviours by the same history statement.",
+    design_ref="DESIGN.md §5 C10, §3.6",
+    note="'until it answers again' is read as 'or is admitted anew by a later mention' (DESIGN §5 C10). Bounded as C08.",
+    technique="TLA+ spec + TLC model checking; history monitor evaluated by TLC on traces of the real routing table"),
 }
 
 def main():
